@@ -6,7 +6,20 @@
    E c*            -> escaped codes
    L mode c*       -> mode 1 = path, 0 = value: "FAIL" | toks "#" rest
    R esc {n c*}(out action input) ndeps {n c*}* {n c*}(imports module) -> codes of render
-   B c*            -> parse_build: "FAIL" | outs/rule/ins/implicit/bindings "#" rest *)
+   B c*            -> parse_build: "FAIL" | outs/rule/ins/implicit/bindings "#" rest
+   Strings below are length-prefixed code-point lists {n c*}; lists of strings are count-prefixed.
+   W nitems {k v}*          -> write_imports: codes
+   I {content}              -> read_from_file: "ERR" | k=v;k=v (codes, ',' separated)
+   F {devnull} {content}    -> build_from_file (abspath = identity): "ERR" | "NONE" | items "#" unused
+   O which {s} [{s2}]       -> 0 splitext "a|b", 1 dirname, 2 basename, 3 join2
+   K nexe {w}* nflags {k v}* nbin {w}*   -> command_words: words separated by ';'
+   U {action} nwords {w}*   -> render_rule: codes
+   V {text}                 -> parse_rule: "FAIL" | name/bindings "#" rest
+   X {cmdvalue} {in} {out} {imports} {module}  -> lex_value(cmdvalue ^ "\n") evaluated for the edge: "FAIL" | codes
+   Q {s}                    -> shell_escape ninja_shell_safe: codes
+   S nenv {name val}* {cmd} -> sh_words: "DECLINE" | words separated by ';' ("-" for the empty word)
+   N which ...              -> 0 path_to_module_name {f}; 1 infer_module {f} npp {p}*; 2 module_to_output_path {target} {name};
+                               3 resolved_file_to_module {full} {short} {modname}; 4 loader_path {name}; 5 loader_init_path {name} *)
 open Plan_model
 let rec pos_of_int n = if n = 1 then XH else if n land 1 = 0 then XO (pos_of_int (n lsr 1)) else XI (pos_of_int (n lsr 1))
 let n_of_int n = if n = 0 then N0 else Npos (pos_of_int n)
@@ -97,6 +110,55 @@ let () =
             let pl l = String.concat "," (List.map toks_s l) in
             print_endline (String.concat "/" [ pl p.p_outs; codes_s p.p_rule; pl p.p_ins; pl p.p_implicit;
               String.concat "," (List.map (fun (n, v) -> codes_s n ^ "=" ^ toks_s v) p.p_bind) ] ^ "#" ^ codes_s rest))
+       | "W" | "I" | "F" | "O" | "K" | "U" | "V" | "X" | "Q" | "S" | "N" ->
+         let rd () = let k = next () in List.init k (fun _ -> n_of_int (next ())) in
+         let rdl () = let k = next () in List.init k (fun _ -> rd ()) in
+         let rdp () = let k = next () in List.init k (fun _ -> let a = rd () in let b = rd () in (a, b)) in
+         let cs l = if l = [] then "-" else String.concat "." (List.map (fun c -> string_of_int (int_of_n c)) l) in
+         let items_s its = String.concat ";" (List.map (fun (k, v) -> cs k ^ "=" ^ cs v) its) in
+         let rec seq a b = match a, b with [], [] -> true | x :: a', y :: b' -> int_of_n x = int_of_n y && seq a' b' | _ -> false in
+         (match toks.(0) with
+          | "W" -> print_endline (codes_s (write_imports (rdp ())))
+          | "I" -> (match read_from_file (rd ()) with None -> print_endline "ERR" | Some its -> print_endline ("OK " ^ items_s its))
+          | "F" -> let dn = rd () in
+            (match build_from_file (fun x -> x) dn (rd ()) with
+             | None -> print_endline "ERR"
+             | Some None -> print_endline "NONE"
+             | Some (Some (its, unused)) -> print_endline ("OK " ^ items_s its ^ "#" ^ String.concat ";" (List.map cs unused)))
+          | "O" -> let w = next () in let a = rd () in
+            (match w with
+             | 0 -> let (x, y) = splitext a in print_endline (cs x ^ "|" ^ cs y)
+             | 1 -> print_endline (cs (dirname a))
+             | 2 -> print_endline (cs (basename a))
+             | _ -> print_endline (cs (join2 a (rd ()))))
+          | "K" -> let exe = rdl () in let fl = rdp () in let bf = rdl () in
+            print_endline (String.concat ";" (List.map cs (command_words exe fl bf)))
+          | "U" -> let a = rd () in print_endline (codes_s (render_rule a (rdl ())))
+          | "V" -> (match parse_rule (rd ()) with
+             | None -> print_endline "FAIL"
+             | Some ((name, binds), rest) ->
+               print_endline (codes_s name ^ "/" ^ String.concat "," (List.map (fun (n, v) -> codes_s n ^ "=" ^ toks_s v) binds) ^ "#" ^ codes_s rest))
+          | "X" -> let cmd = rd () in let i = rd () in let o = rd () in let im = rd () in let md = rd () in
+            (match lex_value (cmd @ [n_of_int 10]) with
+             | LFail -> print_endline "FAIL"
+             | LDone (ts, _) ->
+               print_endline ("OK " ^ codes_s (edge_command ts { t_out = o; t_action = []; t_input = i; t_deps = []; t_imports = im; t_module = md })))
+          | "Q" -> print_endline ("OK " ^ codes_s (shell_escape ninja_shell_safe (rd ())))
+          | "S" -> let env = rdp () in let cmd = rd () in
+            let lookup v = (try List.assoc v (List.map (fun (a, b) -> (List.map int_of_n a, b)) env) with Not_found -> []) in
+            (match sh_words (fun v -> lookup (List.map int_of_n v)) cmd with
+             | None -> print_endline "DECLINE"
+             | Some ws -> print_endline ("OK " ^ String.concat ";" (List.map cs ws)))
+          | _ -> let w = next () in
+            (match w with
+             | 0 -> (match path_to_module_name (rd ()) with None -> print_endline "NONE" | Some n -> print_endline ("OK " ^ cs n))
+             | 1 -> let f = rd () in let m = infer_module f (rdl ()) in
+               print_endline (cs m.cm_path ^ "|" ^ cs m.cm_target ^ "|" ^ (match m.cm_name with None -> "NONE" | Some n -> "OK " ^ cs n))
+             | 2 -> let t = rd () in print_endline ("OK " ^ cs (module_to_output_path t (rd ())))
+             | 3 -> let f = rd () in let sp = rd () in let ((p, t), n) = resolved_file_to_module f sp (rd ()) in
+               print_endline (cs p ^ "|" ^ cs t ^ "|" ^ cs n)
+             | 4 -> print_endline ("OK " ^ cs (loader_path (rd ())))
+             | _ -> print_endline ("OK " ^ cs (loader_init_path (rd ())))))
        | t -> failwith ("bad tag " ^ t))
     done
   with End_of_file -> ()
